@@ -105,6 +105,11 @@ func NewParser(srcPath, dstPath string) (*Parser, error) {
 	if fileSrc == nil && parseErr != nil {
 		return nil, logger.Errorf("%v: %v", srcPath, parseErr)
 	}
+	if fileSrc == nil {
+		// The go command did not hand over the setup file as it is (a cgo file is compiled
+		// from a generated copy, for example).
+		return nil, logger.Errorf("%v: the setup file is not among the files loaded for its package", srcPath)
+	}
 
 	// The names of imported packages as declared by their package clauses.
 	pkgNames := make(map[string]string)
